@@ -109,6 +109,21 @@ CLAIMS = {
          'Trusted: as C08; the message classifier of the harness (session_props.classify).',
          'Lean 4 proof (per-phase refinement of the seat-thread programs to a declarative per-seat event list, lifted to all schedules by confluence) + stream-level correspondence'),
 
+ 'C12': ('Lean 4 theorems about the models of JsonLogWriter / JsonParser AND of Python\'s json.dumps / json.loads for the value class used: '
+         'loads_dumps (the reader undoes the writer on every JSON value without duplicate keys: any nesting, strings with quotes, backslashes, '
+         'control and astral characters, integers of any size), framed_output_is_json (ANY sequence of board results, none included, forms ONE JSON '
+         'document {"logs": [...]}), log_validates (it conforms to the published schema, which is TRANSLATED from /repo\'s schema files on every run), '
+         'record_read_back / log_read_back (parse_board_logs returns exactly the records written, in order), read_back_is_what_was_written (field by '
+         'field: players, id, dealer, vulnerability, deal as sets, auction, contract bid / doubling status / declarer, play with leaders as seats, '
+         'tricks, score type, per-side scores keyed by side, dda), log_as_settings (the same document is a board-settings source yielding the same '
+         'boards in order). Unbounded documents, by structural induction. Tie to /repo: writer text as strict JSON token stream, parser results '
+         'with Python types checked, schema verdicts (jsonschema on the real files vs the Lean validator on the translation), reader model vs '
+         'json.loads, plus an independent Python oracle (read-back == written).',
+         'Trusted: Lean kernel (3 standard axioms); the re-implementations of json.dumps / json.loads in Model/Json.lean (differential-tested; floats '
+         'and lone surrogates outside the domain); the schema translator (fails loudly on keywords outside type/properties/required/items/$ref) and '
+         'jsonschema Draft 7 as reference semantics; model faithfulness on documents not sampled.',
+         'Lean 4 proof (structural induction over JSON values; schema regenerated from source each run) + differential correspondence + independent oracle'),
+
  'C19': ('Lean 4 theorems about the models of the message builders and parsers of both ends (each parser = its regular expression with re.match '
          'semantics: greedy groups with backtracking, case-insensitive literals): hand_msg_round_trip (any hand, voids, any seat name / Dummy), '
          'bid_msg_round_trip (38 calls x 4 seats, ANY letter case), bid_msg_alert_round_trip (alert suffix stripped, same call), '
